@@ -16,6 +16,13 @@ theorem ring_capacity_expr :
 theorem limits_expr : minFramesExpr = "recorderConf.MinSecs * c.FPS()" ∧ maxFramesExpr = "recorderConf.MaxSecs * c.FPS()" := by
   decide
 
+/-- C03/C04: `recorder.NewConfig` builds the recording window from start-recording / stop-recording and the
+location, copies min/max/preview-secs unchanged and rejects max-secs < min-secs -/
+theorem recorder_config_wiring :
+    windowCtorArgs = "windowsConfig.StartRecording;windowsConfig.StopRecording;float64(windowLocationConfig.Latitude);float64(windowLocationConfig.Longitude)" ∧
+    recorderConfigFields = "MinSecs:thermalRecorderConfig.MinSecs;MaxSecs:thermalRecorderConfig.MaxSecs;PreviewSecs:thermalRecorderConfig.PreviewSecs;Window:*w;ConstantRecorder:thermalRecorderConfig.ConstantRecorder" ∧
+    recorderConfigValidate = "conf.MaxSecs < conf.MinSecs" := ⟨rfl, rfl, rfl⟩
+
 /-- C04: the window is consulted in `canStartWriting`, the run counter is compared with trigger-frames -/
 theorem gates_expr : windowGate = "!mp.window.Active()" ∧ triggerTest = "mp.triggered < mp.triggerFrames" := by decide
 
